@@ -118,10 +118,13 @@ func runC01(w *worker) func(c TV) *Failure {
 		got := b.Lift(dest.Elem())
 		m := core.EqualStruct(c.S, got, exp, core.EqOpts{}, "$")
 		if m != nil && amb {
-			exp2 := core.FreshStruct(c.S)
-			core.RefDecode(c.S, core.RefEncodeOpts(c.S, c.V, core.EncOpts{EitherOmit: true}), exp2)
-			if core.EqualStruct(c.S, got, exp2, core.EqOpts{}, "$") == nil {
-				m = nil
+			for _, alt := range core.RefEncodeAll(c.S, c.V, 10) {
+				exp2 := core.FreshStruct(c.S)
+				core.RefDecode(c.S, alt, exp2)
+				if core.EqualStruct(c.S, got, exp2, core.EqOpts{}, "$") == nil {
+					m = nil
+					break
+				}
 			}
 		}
 		if m != nil {
